@@ -7,6 +7,7 @@ package hpack
 import (
 	"errors"
 	"fmt"
+	"io"
 	"math/rand/v2"
 	"regexp"
 	"runtime/debug"
@@ -374,6 +375,20 @@ func vuRunHistory(rng *rand.Rand, cfg vuHistCfg, onBlock func(b *vuBlock) bool) 
 			ModelMax: cur, ModelMin: modelMin, ChangePend: pending, Allowed: allowed}
 		b.RefBefore = ref.Clone()
 		got = nil
+		// Other users of the package in the same process (internal/http3 decodes QPACK strings
+		// with the exported Huffman helpers) share the package's buffer pool with the Decoder:
+		// let some of them run, on valid and on invalid input, right before the block is read.
+		for k := rng.IntN(3); k > 0; k-- {
+			hs := AppendHuffmanString(nil, []string{"x-left-over-from-another-user-of-the-pool", "www.example.org", "0123456789", "\x00\xff"}[rng.IntN(4)])
+			switch rng.IntN(3) {
+			case 0:
+				HuffmanDecode(io.Discard, hs)
+			case 1:
+				HuffmanDecodeToString(hs)
+			default:
+				HuffmanDecodeToString(append(hs, 0x00, 0x00, 0x00, 0x00)) // ends in an error
+			}
+		}
 		_, b.Werr = dec.Write(b.Wire)
 		if b.Werr == nil {
 			b.Cerr = dec.Close()
